@@ -9,6 +9,20 @@ HERE = os.path.dirname(os.path.dirname(os.path.abspath(__file__)))
 sys.path.insert(0, HERE)
 
 CLAIMED = {
+    'C01': dict(
+        category='other',
+        text='Static path and call-graph analysis of the two interposers: one indirect call whose callee is only '
+             'dlsym(RTLD_NEXT, own name); arguments are the unmodified parameters in order; the call is executed '
+             'exactly once on every CFG path, after init < store < log < cleanup (callees inlined by must-call/'
+             'may-call summaries), its value is returned with nothing executing afterwards; no non-returning/'
+             'process-replacing API reachable through the resolved call graph (registries expanded); the stored '
+             'path/argv/envp are only read (pointer derivation analysis), environment never mutated. Quantifies '
+             'over all paths of the code instead of sampled inputs.',
+        design_ref='DESIGN.md §5 C01, §4 A1/A2/A9',
+        note='Assumes dlsym(RTLD_NEXT) resolves to libc and is non-NULL; indirect calls are those A1 resolves '
+             '(tables, parameters, dlsym results; anything else aborts the check with exit 2).',
+        technique='static analysis: CFG dominance/path counting + interprocedural call summaries + '
+                  'call-graph deny-list reachability + pointer-derivation (read-only) analysis'),
     'C13': dict(
         category='proof',
         text='Complete case analysis over the guard structure of the three registries: the names and '
